@@ -24,9 +24,9 @@ import (
 	"strings"
 )
 
-func init() { subcmds["lockscan"] = lockscanMain }
+func init() { subcmds["lockscan"] = c20LockscanMain }
 
-type lsSpec struct {
+type c20lsSpec struct {
 	pkg        string
 	dir        string
 	guardField map[string]string // "Type.field" or package var -> mutex canonical / "once:..."
@@ -38,9 +38,10 @@ type lsSpec struct {
 	exclFuncs  []string          // functions whose file creations must all be exclusive
 	barrier    []string          // struct types whose fields are handed to goroutines (distinct index + barrier)
 	webRoots   []string          // receiver type whose methods are web handlers
+	rmwExempt  map[string]string // function -> why its snapshot/publish of a guarded variable need not be one region
 }
 
-var lsSpecs = []lsSpec{
+var c20lsSpecs = []c20lsSpec{
 	{
 		pkg: "profile", dir: "profile", autoX: true,
 		guardField: map[string]string{"Profile.stringTable": "Profile.encodeMu"},
@@ -58,6 +59,9 @@ var lsSpecs = []lsSpec{
 		},
 		callWrites: map[string]string{"writeSettings": "settingsFile"},
 		exclFuncs:  []string{"newTempFile", "writeSettings"},
+		rmwExempt: map[string]string{
+			"parseFlags": "start-up: called once from PProf before any fetch goroutine, web server or interactive loop exists",
+		},
 		barrier:    []string{"profileSource"},
 		webRoots:   []string{"webInterface"},
 	},
@@ -78,8 +82,8 @@ var lsSpecs = []lsSpec{
 	},
 }
 
-type lsPkg struct {
-	spec      *lsSpec
+type c20lsPkg struct {
+	spec      *c20lsSpec
 	fset      *token.FileSet
 	files     []*ast.File
 	structs   map[string]*ast.StructType
@@ -95,10 +99,24 @@ type lsPkg struct {
 	positions map[string]string
 	guards    map[string]string
 	globalsW  map[string]bool
+	getters   map[string]string    // function -> guarded variable whose value it returns
+	setters   map[string]c20lsSetter // function -> guarded variable it overwrites with a parameter
 }
 
-type lsFn struct {
-	p        *lsPkg
+type c20lsSetter struct {
+	v   string
+	idx int
+}
+
+// c20lsSnap: a local holds (something derived from) the value of guarded variable v, read while the
+// function's lock epoch was epoch (-1: read inside another function's own region, i.e. a getter call)
+type c20lsSnap struct {
+	v     string
+	epoch int
+}
+
+type c20lsFn struct {
+	p        *c20lsPkg
 	key      string
 	env      map[string]ast.Expr
 	imports  map[string]bool
@@ -112,23 +130,119 @@ type lsFn struct {
 	inGo     bool
 	loopVars map[string]bool
 	fresh    map[string]bool
+	epoch    int // number of Lock/Unlock events emitted so far: two points share a region iff equal
+	snap     map[string]c20lsSnap
+	params   []string
 }
 
 func c20CoqStr(s string) string { return "\"" + strings.ReplaceAll(s, "\"", "\"\"") + "\"" }
 
-func (f *lsFn) emit(s string) { *f.ev = append(*f.ev, s) }
-func (f *lsFn) bad(why string) { f.emit("GBad " + c20CoqStr(why)) }
+func (f *c20lsFn) emit(s string) {
+	if strings.HasPrefix(s, "GAcq ") || strings.HasPrefix(s, "GRel ") {
+		f.epoch++
+	}
+	*f.ev = append(*f.ev, s)
+}
 
-func recvTypeName(e ast.Expr) string {
+// guardedVar: canonical name of e if it denotes a mutex-/once-guarded variable
+func (f *c20lsFn) guardedVar(e ast.Expr) string {
+	for {
+		switch t := e.(type) {
+		case *ast.ParenExpr:
+			e = t.X
+			continue
+		case *ast.StarExpr:
+			e = t.X
+			continue
+		case *ast.UnaryExpr:
+			e = t.X
+			continue
+		}
+		break
+	}
+	c := f.canon(e)
+	if g, ok := f.p.guards[c]; ok && c != "" && g != "barrier" {
+		return c
+	}
+	return ""
+}
+
+func (f *c20lsFn) calleeKey(c *ast.CallExpr) string {
+	switch fn := c.Fun.(type) {
+	case *ast.Ident:
+		if _, local := f.env[fn.Name]; !local {
+			if _, ok := f.p.funcs[fn.Name]; ok {
+				return fn.Name
+			}
+		}
+	case *ast.SelectorExpr:
+		if te := f.typeOf(fn.X); te != nil {
+			if k, ok := f.p.method(c20RecvTypeName(te), fn.Sel.Name, 0); ok {
+				return k
+			}
+		}
+	}
+	return ""
+}
+
+// snapOf: does the value of e derive from a guarded variable, and in which region was that read?
+func (f *c20lsFn) snapOf(e ast.Expr) *c20lsSnap {
+	var res *c20lsSnap
+	ast.Inspect(e, func(n ast.Node) bool {
+		if res != nil || n == nil {
+			return false
+		}
+		switch t := n.(type) {
+		case *ast.FuncLit:
+			return false
+		case *ast.CallExpr:
+			if k := f.calleeKey(t); k != "" {
+				if v, ok := f.p.getters[k]; ok {
+					res = &c20lsSnap{v, -1}
+					return false
+				}
+			}
+		case *ast.SelectorExpr:
+			if v := f.guardedVar(t); v != "" {
+				res = &c20lsSnap{v, f.epoch}
+				return false
+			}
+		case *ast.Ident:
+			if sn, ok := f.snap[t.Name]; ok {
+				if _, local := f.env[t.Name]; local {
+					res = &c20lsSnap{sn.v, sn.epoch}
+					return false
+				}
+			}
+			if v := f.guardedVar(t); v != "" {
+				res = &c20lsSnap{v, f.epoch}
+				return false
+			}
+		}
+		return true
+	})
+	return res
+}
+
+func (f *c20lsFn) rmw(v string, atomic bool) {
+	if atomic {
+		f.emit("GRmw " + c20CoqStr(v) + " true")
+	} else {
+		f.emit("GRmw " + c20CoqStr(v) + " false")
+	}
+}
+func (f *c20lsFn) bad(why string) { f.emit("GBad " + c20CoqStr(why)) }
+
+func c20RecvTypeName(e ast.Expr) string {
 	switch t := e.(type) {
 	case *ast.StarExpr:
-		return recvTypeName(t.X)
+		return c20RecvTypeName(t.X)
 	case *ast.ParenExpr:
-		return recvTypeName(t.X)
+		return c20RecvTypeName(t.X)
 	case *ast.Ident:
 		return t.Name
 	case *ast.IndexExpr:
-		return recvTypeName(t.X)
+		return c20RecvTypeName(t.X)
 	case *ast.SelectorExpr:
 		if x, ok := t.X.(*ast.Ident); ok {
 			return x.Name + "." + t.Sel.Name
@@ -137,12 +251,12 @@ func recvTypeName(e ast.Expr) string {
 	return ""
 }
 
-func elemType(e ast.Expr) ast.Expr {
+func c20ElemType(e ast.Expr) ast.Expr {
 	switch t := e.(type) {
 	case *ast.ArrayType:
 		return t.Elt
 	case *ast.StarExpr:
-		return elemType(t.X)
+		return c20ElemType(t.X)
 	case *ast.MapType:
 		return t.Value
 	case *ast.Ellipsis:
@@ -151,10 +265,11 @@ func elemType(e ast.Expr) ast.Expr {
 	return nil
 }
 
-func loadPkg(root string, spec *lsSpec) (*lsPkg, error) {
-	p := &lsPkg{spec: spec, fset: token.NewFileSet(), ifaces: map[string]bool{}, structs: map[string]*ast.StructType{}, funcs: map[string]*ast.FuncDecl{},
+func c20LoadPkg(root string, spec *c20lsSpec) (*c20lsPkg, error) {
+	p := &c20lsPkg{spec: spec, fset: token.NewFileSet(), ifaces: map[string]bool{}, structs: map[string]*ast.StructType{}, funcs: map[string]*ast.FuncDecl{},
 		byName: map[string][]string{}, pkgVars: map[string]ast.Expr{}, pkgVarVal: map[string]ast.Expr{}, events: map[string][]string{},
-		calls: map[string]int{}, asValue: map[string]bool{}, positions: map[string]string{}, guards: map[string]string{}, globalsW: map[string]bool{}}
+		calls: map[string]int{}, asValue: map[string]bool{}, positions: map[string]string{}, guards: map[string]string{}, globalsW: map[string]bool{},
+		getters: map[string]string{}, setters: map[string]c20lsSetter{}}
 	ents, err := os.ReadDir(filepath.Join(root, spec.dir))
 	if err != nil {
 		return nil, err
@@ -197,7 +312,7 @@ func loadPkg(root string, spec *lsSpec) (*lsPkg, error) {
 			case *ast.FuncDecl:
 				key := d.Name.Name
 				if d.Recv != nil && len(d.Recv.List) == 1 {
-					key = recvTypeName(d.Recv.List[0].Type) + "." + d.Name.Name
+					key = c20RecvTypeName(d.Recv.List[0].Type) + "." + d.Name.Name
 					p.byName[d.Name.Name] = append(p.byName[d.Name.Name], key)
 				}
 				p.funcs[key] = d
@@ -225,7 +340,7 @@ func loadPkg(root string, spec *lsSpec) (*lsPkg, error) {
 }
 
 // field looks up a (possibly promoted) field of struct type tn: returns owner type and field type.
-func (p *lsPkg) field(tn, name string, depth int) (string, ast.Expr, bool) {
+func (p *c20lsPkg) field(tn, name string, depth int) (string, ast.Expr, bool) {
 	st, ok := p.structs[tn]
 	if !ok || depth > 4 {
 		return "", nil, false
@@ -239,7 +354,7 @@ func (p *lsPkg) field(tn, name string, depth int) (string, ast.Expr, bool) {
 	}
 	for _, fl := range st.Fields.List {
 		if len(fl.Names) == 0 {
-			en := recvTypeName(fl.Type)
+			en := c20RecvTypeName(fl.Type)
 			if i := strings.LastIndex(en, "."); i >= 0 {
 				if en[i+1:] == name {
 					return tn, fl.Type, true
@@ -257,7 +372,7 @@ func (p *lsPkg) field(tn, name string, depth int) (string, ast.Expr, bool) {
 	return "", nil, false
 }
 
-func (p *lsPkg) method(tn, name string, depth int) (string, bool) {
+func (p *c20lsPkg) method(tn, name string, depth int) (string, bool) {
 	if _, ok := p.funcs[tn+"."+name]; ok {
 		return tn + "." + name, true
 	}
@@ -267,7 +382,7 @@ func (p *lsPkg) method(tn, name string, depth int) (string, bool) {
 	}
 	for _, fl := range st.Fields.List {
 		if len(fl.Names) == 0 {
-			if k, ok := p.method(recvTypeName(fl.Type), name, depth+1); ok {
+			if k, ok := p.method(c20RecvTypeName(fl.Type), name, depth+1); ok {
 				return k, true
 			}
 		}
@@ -276,20 +391,20 @@ func (p *lsPkg) method(tn, name string, depth int) (string, bool) {
 }
 
 // embedsMutex reports whether struct tn embeds sync.Mutex (so that x.Lock() locks "tn.Mutex").
-func (p *lsPkg) embedsMutex(tn string) bool {
+func (p *c20lsPkg) embedsMutex(tn string) bool {
 	st, ok := p.structs[tn]
 	if !ok {
 		return false
 	}
 	for _, fl := range st.Fields.List {
-		if len(fl.Names) == 0 && recvTypeName(fl.Type) == "sync.Mutex" {
+		if len(fl.Names) == 0 && c20RecvTypeName(fl.Type) == "sync.Mutex" {
 			return true
 		}
 	}
 	return false
 }
 
-func (f *lsFn) typeOf(e ast.Expr) ast.Expr {
+func (f *c20lsFn) typeOf(e ast.Expr) ast.Expr {
 	switch t := e.(type) {
 	case *ast.Ident:
 		if te, ok := f.env[t.Name]; ok {
@@ -300,8 +415,9 @@ func (f *lsFn) typeOf(e ast.Expr) ast.Expr {
 				return te
 			}
 			if v, ok := f.p.pkgVarVal[t.Name]; ok {
-				if cl, ok := v.(*ast.CompositeLit); ok {
-					return cl.Type
+				switch v.(type) {
+				case *ast.CompositeLit, *ast.CallExpr, *ast.UnaryExpr:
+					return f.typeOf(v)
 				}
 			}
 		}
@@ -324,11 +440,11 @@ func (f *lsFn) typeOf(e ast.Expr) ast.Expr {
 		return t.Type
 	case *ast.IndexExpr:
 		if te := f.typeOf(t.X); te != nil {
-			return elemType(te)
+			return c20ElemType(te)
 		}
 	case *ast.SelectorExpr:
 		if te := f.typeOf(t.X); te != nil {
-			if _, ft, ok := f.p.field(recvTypeName(te), t.Sel.Name, 0); ok {
+			if _, ft, ok := f.p.field(c20RecvTypeName(te), t.Sel.Name, 0); ok {
 				return ft
 			}
 		}
@@ -339,7 +455,7 @@ func (f *lsFn) typeOf(e ast.Expr) ast.Expr {
 			fd = f.p.funcs[fn.Name]
 		case *ast.SelectorExpr:
 			if te := f.typeOf(fn.X); te != nil {
-				if k, ok := f.p.method(recvTypeName(te), fn.Sel.Name, 0); ok {
+				if k, ok := f.p.method(c20RecvTypeName(te), fn.Sel.Name, 0); ok {
 					fd = f.p.funcs[k]
 				}
 			}
@@ -353,7 +469,7 @@ func (f *lsFn) typeOf(e ast.Expr) ast.Expr {
 
 // canon returns the canonical name of a variable expression if it denotes a struct field of a
 // package type ("Type.field") or a package-level variable; "" otherwise.
-func (f *lsFn) canon(e ast.Expr) string {
+func (f *c20lsFn) canon(e ast.Expr) string {
 	switch t := e.(type) {
 	case *ast.Ident:
 		if _, local := f.env[t.Name]; local {
@@ -367,7 +483,7 @@ func (f *lsFn) canon(e ast.Expr) string {
 		}
 	case *ast.SelectorExpr:
 		if te := f.typeOf(t.X); te != nil {
-			if owner, _, ok := f.p.field(recvTypeName(te), t.Sel.Name, 0); ok {
+			if owner, _, ok := f.p.field(c20RecvTypeName(te), t.Sel.Name, 0); ok {
 				return owner + "." + t.Sel.Name
 			}
 		}
@@ -375,14 +491,14 @@ func (f *lsFn) canon(e ast.Expr) string {
 	return ""
 }
 
-func (f *lsFn) rootKey() string {
+func (f *c20lsFn) rootKey() string {
 	if i := strings.Index(f.key, "$"); i >= 0 {
 		return f.key[:i]
 	}
 	return f.key
 }
 
-func (f *lsFn) access(e ast.Expr, write bool) {
+func (f *c20lsFn) access(e ast.Expr, write bool) {
 	c := f.canon(e)
 	if c == "" {
 		return
@@ -425,7 +541,7 @@ func (f *lsFn) access(e ast.Expr, write bool) {
 }
 
 // base of an lvalue: p.stringTable[i] = .. and *x = .. write the underlying variable
-func lvalueBase(e ast.Expr) ast.Expr {
+func c20LvalueBase(e ast.Expr) ast.Expr {
 	for {
 		switch t := e.(type) {
 		case *ast.IndexExpr:
@@ -442,7 +558,7 @@ func lvalueBase(e ast.Expr) ast.Expr {
 	}
 }
 
-func (f *lsFn) expr(e ast.Expr) {
+func (f *c20lsFn) expr(e ast.Expr) {
 	switch t := e.(type) {
 	case nil:
 	case *ast.Ident:
@@ -460,7 +576,7 @@ func (f *lsFn) expr(e ast.Expr) {
 			}
 		}
 		if te := f.typeOf(t.X); te != nil {
-			if k, ok := f.p.method(recvTypeName(te), t.Sel.Name, 0); ok {
+			if k, ok := f.p.method(c20RecvTypeName(te), t.Sel.Name, 0); ok {
 				f.p.asValue[k] = true // method value
 			}
 		}
@@ -471,7 +587,7 @@ func (f *lsFn) expr(e ast.Expr) {
 		f.closure(t, false)
 	case *ast.UnaryExpr:
 		if t.Op == token.AND {
-			f.access(lvalueBase(t.X), true) // address taken: treat as a write
+			f.access(c20LvalueBase(t.X), true) // address taken: treat as a write
 			f.subexprs(t.X)
 			return
 		}
@@ -503,7 +619,7 @@ func (f *lsFn) expr(e ast.Expr) {
 }
 
 // subexprs walks the index/base sub-expressions of an lvalue without counting the lvalue itself as a read
-func (f *lsFn) subexprs(e ast.Expr) {
+func (f *c20lsFn) subexprs(e ast.Expr) {
 	switch t := e.(type) {
 	case *ast.IndexExpr:
 		f.subexprs(t.X)
@@ -517,7 +633,7 @@ func (f *lsFn) subexprs(e ast.Expr) {
 	}
 }
 
-func (f *lsFn) closure(fl *ast.FuncLit, sep bool) {
+func (f *c20lsFn) closure(fl *ast.FuncLit, sep bool) {
 	saved := map[string]ast.Expr{}
 	var names []string
 	_ = sep
@@ -546,7 +662,7 @@ func (f *lsFn) closure(fl *ast.FuncLit, sep bool) {
 }
 
 // sub runs a closure body as a function of its own (go statement, Once body) and returns its key
-func (f *lsFn) sub(kind string, fl *ast.FuncLit, isGo bool) string {
+func (f *c20lsFn) sub(kind string, fl *ast.FuncLit, isGo bool) string {
 	f.nsub++
 	key := fmt.Sprintf("%s$%s%d", f.rootKey(), kind, f.nsub)
 	var ev []string
@@ -563,8 +679,8 @@ func (f *lsFn) sub(kind string, fl *ast.FuncLit, isGo bool) string {
 			outer[k] = true
 		}
 	}
-	g := &lsFn{p: f.p, key: key, env: env, imports: f.imports, ev: &ev, explicit: map[string]int{}, captured: map[string]bool{},
-		outer: outer, inGo: isGo || f.inGo, loopVars: map[string]bool{}, fresh: map[string]bool{}}
+	g := &c20lsFn{p: f.p, key: key, env: env, imports: f.imports, ev: &ev, explicit: map[string]int{}, captured: map[string]bool{},
+		outer: outer, inGo: isGo || f.inGo, loopVars: map[string]bool{}, fresh: map[string]bool{}, snap: map[string]c20lsSnap{}}
 	if fl.Type.Params != nil {
 		for _, p := range fl.Type.Params.List {
 			for _, n := range p.Names {
@@ -581,12 +697,12 @@ func (f *lsFn) sub(kind string, fl *ast.FuncLit, isGo bool) string {
 	return key
 }
 
-func (f *lsFn) mutexOf(x ast.Expr) string {
+func (f *c20lsFn) mutexOf(x ast.Expr) string {
 	switch t := x.(type) {
 	case *ast.Ident:
 		te := f.typeOf(t)
 		if te != nil {
-			tn := recvTypeName(te)
+			tn := c20RecvTypeName(te)
 			if tn == "sync.Mutex" || tn == "sync.RWMutex" {
 				if _, local := f.env[t.Name]; local {
 					return "local:" + f.rootKey() + "." + t.Name
@@ -599,8 +715,8 @@ func (f *lsFn) mutexOf(x ast.Expr) string {
 		}
 	case *ast.SelectorExpr:
 		if te := f.typeOf(t.X); te != nil {
-			if owner, ft, ok := f.p.field(recvTypeName(te), t.Sel.Name, 0); ok {
-				tn := recvTypeName(ft)
+			if owner, ft, ok := f.p.field(c20RecvTypeName(te), t.Sel.Name, 0); ok {
+				tn := c20RecvTypeName(ft)
 				if tn == "sync.Mutex" || tn == "sync.RWMutex" {
 					return owner + "." + t.Sel.Name
 				}
@@ -617,7 +733,7 @@ func (f *lsFn) mutexOf(x ast.Expr) string {
 	return ""
 }
 
-func (f *lsFn) onceOf(x ast.Expr) string {
+func (f *c20lsFn) onceOf(x ast.Expr) string {
 	var te ast.Expr
 	name := ""
 	switch t := x.(type) {
@@ -626,19 +742,19 @@ func (f *lsFn) onceOf(x ast.Expr) string {
 		name = t.Name
 	case *ast.SelectorExpr:
 		if xt := f.typeOf(t.X); xt != nil {
-			if owner, ft, ok := f.p.field(recvTypeName(xt), t.Sel.Name, 0); ok {
+			if owner, ft, ok := f.p.field(c20RecvTypeName(xt), t.Sel.Name, 0); ok {
 				te = ft
 				name = owner + "." + t.Sel.Name
 			}
 		}
 	}
-	if te != nil && recvTypeName(te) == "sync.Once" {
+	if te != nil && c20RecvTypeName(te) == "sync.Once" {
 		return "once:" + name
 	}
 	return ""
 }
 
-func hasFlag(e ast.Expr, flag string) bool {
+func c20HasFlag(e ast.Expr, flag string) bool {
 	found := false
 	ast.Inspect(e, func(n ast.Node) bool {
 		if s, ok := n.(*ast.SelectorExpr); ok {
@@ -651,7 +767,7 @@ func hasFlag(e ast.Expr, flag string) bool {
 	return found
 }
 
-func (f *lsFn) call(c *ast.CallExpr) {
+func (f *c20lsFn) call(c *ast.CallExpr) {
 	// Lock / Unlock / Do / Wait / file creation
 	if sel, ok := c.Fun.(*ast.SelectorExpr); ok {
 		switch sel.Sel.Name {
@@ -681,7 +797,7 @@ func (f *lsFn) call(c *ast.CallExpr) {
 					k := ""
 					if s2, ok := a.(*ast.SelectorExpr); ok {
 						if te := f.typeOf(s2.X); te != nil {
-							k, _ = f.p.method(recvTypeName(te), s2.Sel.Name, 0)
+							k, _ = f.p.method(c20RecvTypeName(te), s2.Sel.Name, 0)
 						}
 					} else if id, ok := a.(*ast.Ident); ok {
 						if _, ok := f.p.funcs[id.Name]; ok {
@@ -698,7 +814,7 @@ func (f *lsFn) call(c *ast.CallExpr) {
 				return
 			}
 		case "Wait":
-			if te := f.typeOf(sel.X); te != nil && recvTypeName(te) == "sync.WaitGroup" {
+			if te := f.typeOf(sel.X); te != nil && c20RecvTypeName(te) == "sync.WaitGroup" {
 				f.emit("GWait")
 				return
 			}
@@ -706,8 +822,8 @@ func (f *lsFn) call(c *ast.CallExpr) {
 		if x, ok := sel.X.(*ast.Ident); ok && x.Name == "os" && f.imports["os"] {
 			switch sel.Sel.Name {
 			case "OpenFile":
-				if len(c.Args) >= 2 && hasFlag(c.Args[1], "O_CREATE") {
-					if hasFlag(c.Args[1], "O_EXCL") {
+				if len(c.Args) >= 2 && c20HasFlag(c.Args[1], "O_CREATE") {
+					if c20HasFlag(c.Args[1], "O_EXCL") {
 						f.emit("GCreate true")
 					} else {
 						f.emit("GCreate false")
@@ -740,6 +856,7 @@ func (f *lsFn) call(c *ast.CallExpr) {
 			if v, ok := f.p.spec.callWrites[fn.Name]; ok {
 				f.emit("GWr " + c20CoqStr(v))
 			}
+			f.setterCall(fn.Name, c)
 			f.p.calls[fn.Name]++
 			f.emit("GCall " + c20CoqStr(f.p.spec.pkg+":"+fn.Name))
 		}
@@ -752,7 +869,7 @@ func (f *lsFn) call(c *ast.CallExpr) {
 		te := f.typeOf(fn.X)
 		tn := ""
 		if te != nil {
-			tn = recvTypeName(te)
+			tn = c20RecvTypeName(te)
 		}
 		mkey, mok := "", false
 		if tn != "" {
@@ -770,11 +887,15 @@ func (f *lsFn) call(c *ast.CallExpr) {
 				}
 			}
 			f.access(fn.X, ptr)
+			if ptr && mok {
+				f.rmw(c0, true) // updated in place through the receiver: read and write in one region
+			}
 			f.subexprs(fn.X)
 		} else {
 			f.expr(fn.X)
 		}
 		if mok {
+			f.setterCall(mkey, c)
 			f.p.calls[mkey]++
 			f.emit("GCall " + c20CoqStr(f.p.spec.pkg+":"+mkey))
 			return
@@ -798,7 +919,7 @@ func (f *lsFn) call(c *ast.CallExpr) {
 	}
 }
 
-func (f *lsFn) checkFresh(c *ast.CallExpr) {
+func (f *c20lsFn) checkFresh(c *ast.CallExpr) {
 	idx := 0
 	if id, ok := c.Fun.(*ast.Ident); ok && id.Name == "unmarshal" {
 		idx = 1
@@ -810,12 +931,57 @@ func (f *lsFn) checkFresh(c *ast.CallExpr) {
 	if id, ok := c.Args[idx].(*ast.Ident); ok && f.fresh[id.Name] {
 		return
 	}
-	f.bad("argument of " + recvTypeName(c.Fun) + " in " + f.key + " is not a freshly allocated local object")
+	f.bad("argument of " + c20RecvTypeName(c.Fun) + " in " + f.key + " is not a freshly allocated local object")
 }
 
-func (f *lsFn) assign(lhs []ast.Expr, rhs []ast.Expr, define bool) {
+// setterCall: publishing a value derived from a snapshot of v through a function that assigns v
+// under its own lock is a read-modify-write split over two regions
+func (f *c20lsFn) setterCall(k string, c *ast.CallExpr) {
+	st, ok := f.p.setters[k]
+	if !ok || st.idx >= len(c.Args) {
+		return
+	}
+	if sn := f.snapOf(c.Args[st.idx]); sn != nil && sn.v == st.v {
+		f.rmw(st.v, false)
+	}
+}
+
+func (f *c20lsFn) assign(lhs []ast.Expr, rhs []ast.Expr, define bool) {
 	for _, r := range rhs {
 		f.expr(r)
+	}
+	// dependence of written values on snapshots of guarded variables
+	for i, l := range lhs {
+		var r ast.Expr
+		if len(rhs) == len(lhs) {
+			r = rhs[i]
+		} else if len(rhs) == 1 {
+			r = rhs[0]
+		}
+		if r == nil {
+			continue
+		}
+		sn := f.snapOf(r)
+		if v := f.guardedVar(c20LvalueBase(l)); v != "" {
+			if sn != nil && sn.v == v {
+				f.rmw(v, sn.epoch == f.epoch)
+			}
+			if id, ok := r.(*ast.Ident); ok {
+				for pi, pn := range f.params {
+					if pn == id.Name && !strings.Contains(f.key, "$") {
+						f.p.setters[f.key] = c20lsSetter{v, pi}
+					}
+				}
+			}
+			continue
+		}
+		if id, ok := c20LvalueBase(l).(*ast.Ident); ok && id.Name != "_" {
+			if sn != nil {
+				f.snap[id.Name] = *sn
+			} else if _, isIdent := l.(*ast.Ident); isIdent {
+				delete(f.snap, id.Name)
+			}
+		}
 	}
 	for i, l := range lhs {
 		if id, ok := l.(*ast.Ident); ok && define {
@@ -840,7 +1006,7 @@ func (f *lsFn) assign(lhs []ast.Expr, rhs []ast.Expr, define bool) {
 			delete(f.outer, id.Name)
 			continue
 		}
-		b := lvalueBase(l)
+		b := c20LvalueBase(l)
 		if id, ok := l.(*ast.Ident); ok {
 			f.fresh[id.Name] = false
 		}
@@ -855,17 +1021,17 @@ func (f *lsFn) assign(lhs []ast.Expr, rhs []ast.Expr, define bool) {
 	}
 }
 
-var lsCaptured = map[string]map[string][]string{} // root function -> go closure -> outer locals written
+var c20lsCaptured = map[string]map[string][]string{} // root function -> go closure -> outer locals written
 
-func (f *lsFn) capturedWrite(name string) {
+func (f *c20lsFn) capturedWrite(name string) {
 	r := f.rootKey()
-	if lsCaptured[r] == nil {
-		lsCaptured[r] = map[string][]string{}
+	if c20lsCaptured[r] == nil {
+		c20lsCaptured[r] = map[string][]string{}
 	}
-	lsCaptured[r][f.key] = append(lsCaptured[r][f.key], name)
+	c20lsCaptured[r][f.key] = append(c20lsCaptured[r][f.key], name)
 }
 
-func (f *lsFn) stmts(l []ast.Stmt) {
+func (f *c20lsFn) stmts(l []ast.Stmt) {
 	f.depth++
 	for _, s := range l {
 		f.stmt(s)
@@ -873,7 +1039,7 @@ func (f *lsFn) stmts(l []ast.Stmt) {
 	f.depth--
 }
 
-func (f *lsFn) stmt(s ast.Stmt) {
+func (f *c20lsFn) stmt(s ast.Stmt) {
 	switch t := s.(type) {
 	case nil:
 	case *ast.ExprStmt:
@@ -881,7 +1047,7 @@ func (f *lsFn) stmt(s ast.Stmt) {
 	case *ast.AssignStmt:
 		f.assign(t.Lhs, t.Rhs, t.Tok == token.DEFINE)
 	case *ast.IncDecStmt:
-		f.access(lvalueBase(t.X), true)
+		f.access(c20LvalueBase(t.X), true)
 		f.subexprs(t.X)
 	case *ast.DeclStmt:
 		if gd, ok := t.Decl.(*ast.GenDecl); ok {
@@ -931,10 +1097,10 @@ func (f *lsFn) stmt(s ast.Stmt) {
 				}
 			}
 			k := f.sub("go", fl, true)
-			if len(f.loopVars) > 0 && len(lsCaptured[f.rootKey()][k]) > 0 {
-				f.bad("goroutines started in a loop write the shared local " + lsCaptured[f.rootKey()][k][0] + " in " + f.key)
+			if len(f.loopVars) > 0 && len(c20lsCaptured[f.rootKey()][k]) > 0 {
+				f.bad("goroutines started in a loop write the shared local " + c20lsCaptured[f.rootKey()][k][0] + " in " + f.key)
 			}
-			for _, n := range lsCaptured[f.rootKey()][k] {
+			for _, n := range c20lsCaptured[f.rootKey()][k] {
 				f.captured[n] = true
 			}
 			f.emit("GSpawn " + c20CoqStr(f.p.spec.pkg+":"+k))
@@ -947,6 +1113,15 @@ func (f *lsFn) stmt(s ast.Stmt) {
 	case *ast.ReturnStmt:
 		for _, r := range t.Results {
 			f.expr(r)
+			if !strings.Contains(f.key, "$") {
+				if v := f.guardedVar(r); v != "" {
+					f.p.getters[f.key] = v
+				} else if id, ok := r.(*ast.Ident); ok {
+					if sn, ok := f.snap[id.Name]; ok {
+						f.p.getters[f.key] = sn.v
+					}
+				}
+			}
 		}
 		for m := range f.explicit {
 			f.bad("return between Lock and explicit Unlock of " + m + " in " + f.key)
@@ -981,7 +1156,7 @@ func (f *lsFn) stmt(s ast.Stmt) {
 		if id, ok := t.Value.(*ast.Ident); ok && t.Tok == token.DEFINE {
 			var et ast.Expr
 			if xt != nil {
-				et = elemType(xt)
+				et = c20ElemType(xt)
 			}
 			f.env[id.Name] = et
 		}
@@ -1020,7 +1195,7 @@ func (f *lsFn) stmt(s ast.Stmt) {
 	}
 }
 
-func (f *lsFn) loop(lv []string, body func()) {
+func (f *c20lsFn) loop(lv []string, body func()) {
 	for _, v := range lv {
 		f.loopVars[v] = true
 	}
@@ -1034,13 +1209,13 @@ func (f *lsFn) loop(lv []string, body func()) {
 	}
 }
 
-func (f *lsFn) finish() {
+func (f *c20lsFn) finish() {
 	for i := len(f.deferred) - 1; i >= 0; i-- {
 		f.emit("GRel " + c20CoqStr(f.deferred[i]))
 	}
 }
 
-func (p *lsPkg) scan() {
+func (p *c20lsPkg) scan() {
 	for _, af := range p.files {
 		imports := map[string]bool{}
 		for _, im := range af.Imports {
@@ -1059,9 +1234,17 @@ func (p *lsPkg) scan() {
 			key := fd.Name.Name
 			env := map[string]ast.Expr{}
 			if fd.Recv != nil && len(fd.Recv.List) == 1 {
-				key = recvTypeName(fd.Recv.List[0].Type) + "." + fd.Name.Name
+				key = c20RecvTypeName(fd.Recv.List[0].Type) + "." + fd.Name.Name
 				for _, n := range fd.Recv.List[0].Names {
 					env[n.Name] = fd.Recv.List[0].Type
+				}
+			}
+			var params []string
+			if fd.Type.Params != nil {
+				for _, pr := range fd.Type.Params.List {
+					for _, n := range pr.Names {
+						params = append(params, n.Name)
+					}
 				}
 			}
 			for _, fl := range [](*ast.FieldList){fd.Type.Params, fd.Type.Results} {
@@ -1075,15 +1258,15 @@ func (p *lsPkg) scan() {
 				}
 			}
 			var ev []string
-			f := &lsFn{p: p, key: key, env: env, imports: imports, ev: &ev, explicit: map[string]int{}, captured: map[string]bool{},
-				outer: map[string]bool{}, loopVars: map[string]bool{}, fresh: map[string]bool{}}
+			f := &c20lsFn{p: p, key: key, env: env, imports: imports, ev: &ev, explicit: map[string]int{}, captured: map[string]bool{},
+				outer: map[string]bool{}, loopVars: map[string]bool{}, fresh: map[string]bool{}, snap: map[string]c20lsSnap{}, params: params}
 			f.stmts(fd.Body.List)
 			f.finish()
 			p.events[key] = ev
 		}
 	}
 	// the closures of one function must write disjoint sets of captured locals
-	for root, m := range lsCaptured {
+	for root, m := range c20lsCaptured {
 		seen := map[string]string{}
 		for k, names := range m {
 			for _, n := range names {
@@ -1106,7 +1289,7 @@ func (p *lsPkg) scan() {
 	}
 }
 
-func lockscanMain(args []string) {
+func c20LockscanMain(args []string) {
 	root := os.Getenv("VERIF_REPO")
 	if root == "" {
 		root = "/repo"
@@ -1114,16 +1297,23 @@ func lockscanMain(args []string) {
 	var sb strings.Builder
 	sb.WriteString("(* GENERATED by `harness lockscan` from /repo's current source on every run; do not edit. *)\n")
 	sb.WriteString("From PV Require Import M_Conc.\nOpen Scope string_scope.\n\n")
-	var funcs, roots, webroots, guards, exempt, excl, barrierFns, info []string
-	for si := range lsSpecs {
-		spec := &lsSpecs[si]
-		lsCaptured = map[string]map[string][]string{}
-		p, err := loadPkg(root, spec)
-		if err != nil {
-			fmt.Fprintln(os.Stderr, "lockscan:", err)
-			os.Exit(1)
+	var funcs, roots, webroots, guards, exempt, excl, barrierFns, info, rmwExempt []string
+	for si := range c20lsSpecs {
+		spec := &c20lsSpecs[si]
+		c20lsCaptured = map[string]map[string][]string{}
+		var p *c20lsPkg
+		getters, setters := map[string]string{}, map[string]c20lsSetter{}
+		for pass := 0; pass < 3; pass++ { // getters/setters found in one pass are used by the next
+			c20lsCaptured = map[string]map[string][]string{}
+			var err error
+			p, err = c20LoadPkg(root, spec)
+			if err != nil {
+				fmt.Fprintln(os.Stderr, "lockscan:", err)
+				os.Exit(1)
+			}
+			p.getters, p.setters = getters, setters
+			p.scan()
 		}
-		p.scan()
 		for k := range spec.exempt {
 			// exempt functions are listed, but contribute nothing to their callers
 			if _, ok := p.events[k]; ok {
@@ -1329,6 +1519,25 @@ func lockscanMain(args []string) {
 		for _, k := range gw {
 			guards = append(guards, fmt.Sprintf("  (%s, GGlobal)", c20CoqStr("global:"+k)))
 		}
+		var rk []string
+		for k := range spec.rmwExempt {
+			rk = append(rk, k)
+		}
+		sort.Strings(rk)
+		for _, k := range rk {
+			if _, ok := p.funcs[k]; ok {
+				rmwExempt = append(rmwExempt, fmt.Sprintf("  (%s, %s)", c20CoqStr(spec.pkg+":"+k), c20CoqStr(spec.rmwExempt[k])))
+			}
+		}
+		var gs []string
+		for k, v := range p.getters {
+			gs = append(gs, k+" reads "+v)
+		}
+		for k, v := range p.setters {
+			gs = append(gs, k+" publishes "+v.v)
+		}
+		sort.Strings(gs)
+		info = append(info, spec.pkg+" accessors: "+strings.Join(gs, ", "))
 		for _, e := range spec.exclFuncs {
 			excl = append(excl, c20CoqStr(spec.pkg+":"+e))
 		}
@@ -1350,6 +1559,7 @@ func lockscanMain(args []string) {
 	sb.WriteString("Definition gen_web_roots : list string := [" + strings.Join(webroots, "; ") + "].\n\n")
 	sb.WriteString("Definition gen_exempt : list (string * string) := [\n" + strings.Join(exempt, ";\n") + "\n].\n\n")
 	sb.WriteString("Definition gen_excl_funcs : list string := [" + strings.Join(excl, "; ") + "].\n\n")
+	sb.WriteString("Definition gen_rmw_exempt : list (string * string) := [\n" + strings.Join(rmwExempt, ";\n") + "\n].\n\n")
 	sb.WriteString("Definition gen_barrier_funcs : list string := [" + strings.Join(barrierFns, "; ") + "].\n")
 	if len(args) > 0 {
 		os.WriteFile(args[0], []byte(sb.String()), 0o644)
